@@ -173,6 +173,15 @@ def main():
         inputs.append([("c.pn", src)])
     for src in faultgen.constant_hazards():
         inputs.append([("k.pn", src)])
+    # every kind of argument, plain and in one or two pairs of parentheses, for every kind of parameter
+    PK = [("x: []i32", ["a", "[1, 2]", "sl"]), ("x: &[]i32", ["&a"]), ("x: &[3]i32", ["&a"]), ("x: &i32", ["&v"]), ("x: i32", ["v", "1", "a[0]"]),
+          ("x: S", ["st", "S { m: 1 }"]), ("x: &S", ["&st"]), ("x: [][2]i32", ["g"]), ("x: []S", ["ss"])]
+    for (param, args) in PK:
+        for arg in args:
+            for wrap in ("%s", "(%s)", "((%s))"):
+                inputs.append([("q.pn", "struct S\n{\n\tm: i32,\n}\nfn callee(%s)\n{\n}\nfn outer(sl: []i32)\n{\n\tvar a: [3]i32 = [1, 2, 3];\n\tvar v: i32 = 1;\n"
+                                "\tvar st = S { m: 1 };\n\tvar g: [2][2]i32 = [[1, 2], [3, 4]];\n\tvar ss: [2]S = [S { m: 1 }, S { m: 2 }];\n\tcallee(%s);\n}\nfn main()\n{\n}\n"
+                                % (param, wrap % arg))])
     # the pointer-advancing operator `..` (tests/samples/valid/pointer_arithmetic.pn) with every kind of right operand
     for off in ("1", "1usize", "1i8", "true", "'a'", "&p", "p", "a", "x", "st", "-1", "1 + x", "f()"):
         inputs.append([("p.pn", "struct S\n{\n\tm: i32,\n}\nfn f() -> usize\n{\n\treturn: 1\n}\nfn main() -> i32\n{\n\tvar a: [4]i32 = [1, 2, 3, 4];\n"
